@@ -74,6 +74,8 @@ def decAct : List String → Option Act
   | ["chghost", n, i, h] => do pure (.chghost (← dec n) (← dec i) (← dec h))
   | ["names", c] => do pure (.names (← dec c))
   | ["who", c] => do pure (.who (← dec c))
+  | ["modeis", c] => do pure (.modeis (← dec c))
+  | ["banlist", c] => do pure (.banlist (← dec c))
   | ["reconnect"] => some .reconnect
   | _ => none
 
